@@ -125,6 +125,37 @@ def batchValidate (o : Opts) (b : VBatch) : Bool :=
   (o.customTraceNumbers || o.bypassOrigin || tracePrefixOK (stringField b.header.odfi 8) b.entries) &&
   b.entries.all (classOK b.header.serviceClass)
 
+/-! ## IAT batches (iatBatch.go `verify`, `Validate`, and `IATEntryDetail.Validate`) -/
+
+def iatCreditTotal (es : List VEntry) : Int := sumBy (fun e => if iatCreditCodes.contains e.code then e.amount else 0) es
+def iatDebitTotal (es : List VEntry) : Int := sumBy (fun e => if iatDebitCodes.contains e.code then e.amount else 0) es
+
+/-- `IATEntryDetail.Validate`, the part C03 speaks about: the check digit is compared unconditionally
+(there is no `AllowInvalidCheckDigit` bypass on this path) -/
+def iatEntryOK (e : VEntry) : Bool :=
+  e.extraOK &&
+  (match atoi e.checkDigit with
+   | some d => decide (calculateCheckDigit (stringField e.rdfi 8) = d)
+   | none => false)
+
+/-- `IATBatch.isTraceNumberODFI`: the first eight columns of the *rendered* trace number field -/
+def iatTracePrefixOK (odfiField : Str) (es : List VEntry) : Bool :=
+  es.all (fun e => (stringField e.trace 15).take 8 = odfiField)
+
+/-- `IATBatch.verify` (`isSequenceAscending` starts from "-1"; no company identification equality, no
+service-class / transaction-code cross check) -/
+def iatBatchValidate (o : Opts) (b : VBatch) : Bool :=
+  !b.entries.isEmpty && b.extraOK && b.entries.all iatEntryOK &&
+  (o.unequalServiceClassCode || decide (b.header.serviceClass = b.control.serviceClass)) &&
+  decide (b.header.odfi = b.control.odfi) &&
+  decide (b.header.batchNumber = b.control.batchNumber) &&
+  (o.unequalAddendaCounts || decide (entryCount b.entries = b.control.entryAddendaCount)) &&
+  (o.customTraceNumbers || tracesAscend ['-', '1'] b.entries) &&
+  decide (iatDebitTotal b.entries = b.control.totalDebit) &&
+  decide (iatCreditTotal b.entries = b.control.totalCredit) &&
+  decide (batchHash b.entries = b.control.entryHash) &&
+  (o.customTraceNumbers || o.bypassOrigin || iatTracePrefixOK (stringField b.header.odfi 8) b.entries)
+
 structure VFileControl where
   batchCount : Int
   entryAddendaCount : Int
